@@ -274,6 +274,22 @@ func c20Calls(thorough bool) []jcall {
 			}
 		}
 	}
+	// undecodable secrets (must be answered with 'error:' every time) and every call issued twice in a
+	// row / alternated with its neighbour: a remembered argument or result must never answer the next call
+	bad := []string{"!!!notbase32", "MZXW6YTB0", "A", "ABC=====", "ıııııııı"}
+	var rep []jcall
+	for i, s := range append(append([]string{}, secrets...), bad...) {
+		for _, c := range []any{0, 1, uint64(1) << 32} {
+			rep = append(rep, jcall{F: "generateHOTP", A: []any{s, c, digits[i%4], algos[i%3]}}, jcall{F: "generateTOTP", A: []any{s, c, digits[(i+1)%4], algos[(i+1)%3], 30}},
+				jcall{F: "validateHOTP", A: []any{s, ref.HOTP(c20Key, 1, 6, 0), c, "6", "SHA1", 1}}, jcall{F: "validateTOTP", A: []any{s, ref.HOTP(c20Key, 1, 6, 0), 59, "6", "SHA1", 1, 30}})
+		}
+	}
+	for i, a := range rep {
+		b := rep[(i*7+3)%len(rep)]
+		for _, c := range []jcall{a, a, b, a, b, b} {
+			add("repeat", c.F, c.A...)
+		}
+	}
 	for _, ty := range []string{"totp", "hotp", "TOTP", "x"} {
 		for _, iss := range []string{"Example", "My Company", "a/b?c#d", "100%", "é日", "x&issuer=evil"} {
 			for _, acc := range []string{"alice@example.com", "bob smith", "x:y", "a+b"} {
